@@ -906,7 +906,8 @@ def _check_func_out_arg(func):
             pos_args.index('out') >= len(pos_args) - len(pos_defaults)
         )
     elif 'out' in kw_only:
-        has_out = out_optional = True
+        has_out = True
+        out_optional = 'out' in (spec.kwonlydefaults or {})
     else:
         has_out = out_optional = False
 
